@@ -58,6 +58,7 @@ class LabelError(Exception):
 
 
 _RESOLVED = None
+MISSING = []      # labels whose source line was not found in the code under test (the code changed)
 
 
 def resolve_labels():
@@ -74,12 +75,14 @@ def _resolve_labels():
     for lab, (fname, pat, occ) in LABELS.items():
         fn = getattr(C, fname, None)
         if fn is None:
-            raise LabelError("Context.%s not found" % fname)
+            MISSING.append("label %d: Context.%s not found" % (lab, fname))
+            continue
         fn = inspect.unwrap(fn)
         lines, start = inspect.getsourcelines(fn)
         hits = [start + i for i, l in enumerate(lines) if re.search(pat, l.rstrip()) and not l.strip().startswith("#")]
         if len(hits) <= occ:
-            raise LabelError("label %d: pattern %r occurrence %d not found in Context.%s" % (lab, pat, occ, fname))
+            MISSING.append("label %d: pattern %r (occurrence %d) not found in Context.%s" % (lab, pat, occ, fname))
+            continue
         by_code.setdefault(fn.__code__, {})[hits[occ]] = lab
     # every other line of strax/context.py that touches the shared maps
     src = open(sctx.__file__).read()
